@@ -392,7 +392,7 @@ type Race struct {
 func (p *PO) Races(ignore func(loc string) bool) ([]Race, int) {
 	byLoc := map[string][]int{}
 	for i, e := range p.ev {
-		if e.Kind == "rd" || e.Kind == "wr" {
+		if e.Kind == "rd" || e.Kind == "wr" || e.Kind == "sema.rd" || e.Kind == "sema.wr" {
 			byLoc[e.Args[0]] = append(byLoc[e.Args[0]], i)
 		}
 	}
@@ -406,7 +406,7 @@ func (p *PO) Races(ignore func(loc string) bool) ([]Race, int) {
 		for a := 0; a < len(idx); a++ {
 			for b := a + 1; b < len(idx); b++ {
 				x, y := p.ev[idx[a]], p.ev[idx[b]]
-				if x.Tid == y.Tid || (x.Kind == "rd" && y.Kind == "rd") {
+				if x.Tid == y.Tid || (strings.HasSuffix(x.Kind, "rd") && strings.HasSuffix(y.Kind, "rd")) {
 					continue
 				}
 				key := fmt.Sprintf("%s|%d%s|%d%s", loc, x.Tid, x.Kind, y.Tid, y.Kind)
